@@ -137,6 +137,13 @@ int main(int argc, char **argv)
   Rng rng(4242);
   fx.PA = wv_content(rng, 20, 1), fx.PB = wv_content(rng, 70, 1), fx.PC = wv_content(rng, 100, 1);
   fx.keyA = rng.bytes(16), fx.keyB = rng.bytes(16), fx.keyC = rng.bytes(16), fx.wrongkey = rng.bytes(16);
+  // keys that are hostile to C-string handling: embedded NUL bytes and long shared prefixes
+  fx.keyA[0] = 0;
+  fx.keyB[0] = 0;
+  fx.keyC = fx.keyA;
+  fx.keyC[15] ^= 0x5a;
+  fx.wrongkey = fx.keyB;
+  fx.wrongkey[15] ^= 0x33;
   fx.seed = {'s', 'e', 'e', 'd', '1', '2', '3'};
   char tmpl[] = "/tmp/wvhistXXXXXX";
   fx.dir = mkdtemp(tmpl);
